@@ -884,6 +884,97 @@ fn queries(ctx: &Ctx, dom: &Dom, have: &[Option<Val>]) {
     sp.done(true, &format!("{} states x ({} values + {} blocks + {} prefixes + round trips)", states.len(), pts.len(), qblocks.len(), roa.len()));
 }
 
+//------------ value -> form -> value for the certificate resource extensions --------------------------
+
+/// AsResources / IpResources in their three shapes (missing, inherit, blocks) through every form
+/// they have and back; afterwards the value must be ==, report the same shape and blocks, and
+/// verify_issued / verify_covered must give the model's answers.
+fn choice_forms(ctx: &Ctx, dom: &Dom, have: &[Option<Val>]) {
+    let sp = ctx.space(&format!("{}.choice_forms", dom.name),
+        "AsResources / IpResources: {missing, inherit, blocks(every non-empty state)} x forms (AS: Display->FromStr, serde JSON, DER; IP: DER inside an IPAddrBlocks with the other family inherited) and back: == the original, same is_inherited / is_present / to_blocks, and for every probe issuer (empty, everything, every single atom, every complement of one atom) verify_issued(refuse), verify_issued(trim) and verify_covered answer as the model says; non-trivial = (value, form) pairs of the missing and inherit shapes and of blocks that are not contained in some probe issuer");
+    let k = dom.kind;
+    let universe = dom.blocks.iter().fold(0u32, |m, b| m | b.mask);
+    let mut probes: Vec<u32> = vec![0, universe];
+    for i in 0..dom.natoms() { if universe & (1 << i) != 0 { probes.push(1 << i); probes.push(universe & !(1 << i)) } }
+    probes.sort(); probes.dedup(); probes.retain(|m| have[*m as usize].is_some());
+    // shapes: None = inherit, Some(0) = missing, Some(m) = blocks
+    let mut shapes: Vec<Option<u32>> = vec![None];
+    shapes.extend((0..have.len() as u32).filter(|m| have[*m as usize].is_some()).map(Some));
+    let pfx = format!("C03.{}.choice", dom.name);
+    shapes.par_iter().for_each(|&shape| {
+        let mut oc: BTreeMap<&'static str, u64> = BTreeMap::new();
+        let (mut evals, mut nontriv) = (0u64, 0u64);
+        let name = match shape { None => "inherit".to_string(), Some(0) => "missing".to_string(), Some(m) => dom.show_mask(m) };
+        let forms: &[&str] = if k == Kind::As { if shape == Some(0) { &["text", "serde"] } else { &["text", "serde", "der"] } } else { &["der"] };
+        for form in forms {
+            evals += 1;
+            let wit = || format!("resources={name} form={form}");
+            // model answers
+            let issued = |issuer: u32, trim: bool| -> Option<u32> { match shape { None => Some(issuer), Some(m) => if trim { Some(m & issuer) } else if m & !issuer == 0 { Some(m) } else { None } } };
+            let covered = |subject: u32| -> bool { match shape { None => true, Some(m) => subject & !m == 0 } };
+            if shape.map(|m| m == 0 || probes.iter().any(|p| m & !p != 0)).unwrap_or(true) { nontriv += 1 }
+            let r = guard(|| -> Result<(), String> {
+                match k {
+                    Kind::As => {
+                        let orig = match shape { None => AsResources::inherit(), Some(m) => match have[m as usize].as_ref().unwrap() { Val::As(b) => AsResources::blocks(b.clone()), _ => unreachable!() } };
+                        let got: AsResources = match *form {
+                            "text" => { let t = orig.to_string(); AsResources::from_str(&t).map_err(|e| format!("text {t:?} does not parse back: {e}"))? }
+                            "serde" => { let j = serde_json::to_string(&orig).map_err(|e| e.to_string())?; serde_json::from_str(&j).map_err(|e| format!("json {j} does not parse back: {e}"))? }
+                            _ => { let b = orig.encode_ref().to_captured(Mode::Der); Mode::Der.decode(b.as_slice(), |c| AsResources::take_from(c)).map_err(|e| format!("DER does not parse back: {e}"))? }
+                        };
+                        if got != orig { return Err(format!("reads back as \"{got}\", which is not == the original \"{orig}\"")) }
+                        if got.is_inherited() != shape.is_none() || got.is_present() != (shape != Some(0)) { return Err(format!("reads back with is_inherited={} is_present={}", got.is_inherited(), got.is_present())) }
+                        match (got.to_blocks(), shape) { (Err(_), None) => {} (Ok(b), Some(m)) if same(&Val::As(b.clone()), &dom.canon[m as usize]) => {} _ => return Err("to_blocks differs after the trip".to_string()) }
+                        for &p in &probes {
+                            let iss = match have[p as usize].as_ref().unwrap() { Val::As(b) => b, _ => unreachable!() };
+                            for trim in [false, true] {
+                                let g = iss.verify_issued(&got, if trim { Overclaim::Trim } else { Overclaim::Refuse }).ok();
+                                let ok = match (&g, issued(p, trim)) { (None, None) => true, (Some(v), Some(w)) => same(&Val::As(v.clone()), &dom.canon[w as usize]), _ => false };
+                                if !ok { return Err(format!("issuer {} verify_issued({}) answers {}", dom.show_mask(p), if trim { "trim" } else { "refuse" }, match g { None => "refused".to_string(), Some(v) => v.to_string() })) }
+                            }
+                            let c = iss.verify_covered(&got).is_ok();
+                            if c != covered(p) { return Err(format!("subject {} verify_covered answers {c}", dom.show_mask(p))) }
+                        }
+                        Ok(())
+                    }
+                    _ => {
+                        let (fam, other) = if k == Kind::V4 { (AddressFamily::Ipv4, AddressFamily::Ipv6) } else { (AddressFamily::Ipv6, AddressFamily::Ipv4) };
+                        let orig = match shape { None => IpResources::inherit(), Some(m) => match have[m as usize].as_ref().unwrap() { Val::Ip(b) => IpResources::blocks(b.clone()), _ => unreachable!() } };
+                        let inh = IpResources::inherit();
+                        let bytes = if k == Kind::V4 { encode::sequence((orig.encode_family(fam), inh.encode_family(other))).to_captured(Mode::Der) }
+                            else { encode::sequence((inh.encode_family(other), orig.encode_family(fam))).to_captured(Mode::Der) };
+                        let (a, b) = Mode::Der.decode(bytes.as_slice(), |c| IpResources::take_families_from(c)).map_err(|e| format!("DER does not parse back: {e}"))?;
+                        let (mine, theirs) = if k == Kind::V4 { (a, b) } else { (b, a) };
+                        if !theirs.map(|t| t.is_inherited()).unwrap_or(false) { return Err("the other (inherited) family did not come back as inherited".to_string()) }
+                        let got = mine.unwrap_or_else(IpResources::missing); // an absent family is what "missing" means
+                        if got != orig { return Err("reads back as a value that is not == the original".to_string()) }
+                        if got.is_inherited() != shape.is_none() || got.is_present() != (shape != Some(0)) { return Err(format!("reads back with is_inherited={} is_present={}", got.is_inherited(), got.is_present())) }
+                        match (got.to_blocks(), shape) { (Err(_), None) => {} (Ok(b), Some(m)) if same(&Val::Ip(b.clone()), &dom.canon[m as usize]) => {} _ => return Err("to_blocks differs after the trip".to_string()) }
+                        for &p in &probes {
+                            let iss = match have[p as usize].as_ref().unwrap() { Val::Ip(b) => b, _ => unreachable!() };
+                            for trim in [false, true] {
+                                let g = iss.verify_issued(&got, if trim { Overclaim::Trim } else { Overclaim::Refuse }).ok();
+                                let ok = match (&g, issued(p, trim)) { (None, None) => true, (Some(v), Some(w)) => same(&Val::Ip(v.clone()), &dom.canon[w as usize]), _ => false };
+                                if !ok { return Err(format!("issuer {} verify_issued({}) answers {}", dom.show_mask(p), if trim { "trim" } else { "refuse" }, match g { None => "refused".to_string(), Some(v) => dom.show_repr(&repr_of(&Val::Ip(v))) })) }
+                            }
+                            let c = iss.verify_covered(&got).is_ok();
+                            if c != covered(p) { return Err(format!("subject {} verify_covered answers {c}", dom.show_mask(p))) }
+                        }
+                        Ok(())
+                    }
+                }
+            });
+            evals += 3 * probes.len() as u64;
+            *oc.entry(match shape { None => "shape:inherit", Some(0) => "shape:missing", _ => "shape:blocks" }).or_insert(0) += 1;
+            match r { Ok(Ok(())) => {} Ok(Err(d)) => ctx.fail(&format!("{pfx}.{form}"), wit(), d), Err(p) => ctx.fail(&format!("{pfx}.{form}.panic"), wit(), p) }
+        }
+        sp.evals(evals); sp.nontrivial(nontriv); sp.merge_outcomes(&oc);
+    });
+    sp.set("shapes", json!(shapes.len())); sp.set("probe_issuers", json!(probes.len()));
+    sp.sample_str(|| format!("{}: probe issuers {}", dom.name, probes.iter().take(4).map(|m| dom.show_mask(*m)).collect::<Vec<_>>().join(" ")));
+    sp.done(true, &format!("{} shapes x forms x {} probe issuers x (refuse, trim, covered)", shapes.len(), probes.len()));
+}
+
 //------------ BER-only spellings of the RFC 3779 bit strings ----------------------------------------
 
 /// Zero-padded content of an IPAddress BIT STRING: the first `len` bits of a family-unit address.
@@ -1272,6 +1363,15 @@ fn resource_set(ctx: &Ctx, pts: &[u128], pts6: &[u128], max_len: u32) {
             let x: ResourceSet = serde_json::from_str(&s).map_err(|e| format!("json {s} does not parse back: {e}"))?;
             if rs3.diff(&x, t).is_some() || &x != v { Err(format!("json {s} parses back as {x}")) } else { Ok(()) } });
     }
+    // textual round trip of every state (the three Display forms back through from_strs)
+    for &i in &order {
+        let v = have[i].as_ref().unwrap(); let t = rs3.unpack(i);
+        sp.eval();
+        ctx.check("C03.rs.display_from_strs", || format!("set={}", rs3.show(t)), || {
+            let (a, b, c) = (v.asn().to_string(), v.ipv4().to_string(), v.ipv6().to_string());
+            let x = ResourceSet::from_strs(&a, &b, &c).map_err(|e| format!("text ({a:?}, {b:?}, {c:?}) does not parse back: {e}"))?;
+            if rs3.diff(&x, t).is_some() || &x != v { Err(format!("text ({a:?}, {b:?}, {c:?}) parses back as {x}")) } else { Ok(()) } });
+    }
     let nbad = bad.load(std::sync::atomic::Ordering::Relaxed);
     sp.states(order.len() as u64);
     sp.set("seed_states", json!(seed_states)); sp.set("canonical_states", json!(order.len())); sp.set("noncanonical_results", json!(nbad));
@@ -1279,6 +1379,108 @@ fn resource_set(ctx: &Ctx, pts: &[u128], pts6: &[u128], max_len: u32) {
     sp.sample_str(|| format!("rs: {} seed states -> {} states after {} rounds (2^{} = {})", seed_states, order.len(), rounds, na + n4 + n6, nstates_max));
     if order.len() != nstates_max && ctx.violations_so_far() == 0 { ctx.machinery_error(format!("rs: closure reached only {} of {} triples", order.len(), nstates_max)); }
     sp.done(true, &format!("fixpoint after {} rounds: {} states, all ordered pairs x (4 set results + 8 limit patterns)", rounds, order.len()));
+    if order.len() == nstates_max { limit_forms(ctx, &rs3, &have) }
+}
+
+//------------ value -> form -> value for the request limit --------------------------------------------
+
+const LIMIT_FORMS: &[&str] = &["serde", "json_legacy_none", "json_alias_absent", "xml_issue_request", "issuance_request_serde"];
+
+/// Every RequestResourceLimit over the product domain (per family: no limit, or exactly one of
+/// the subsets of atoms incl. the empty set) through each of its forms and back.
+fn limit_forms(ctx: &Ctx, rs3: &Rs3, have: &[Option<ResourceSet>]) {
+    use rpki::ca::provisioning as prov;
+    let sp = ctx.space("limit.forms",
+        "RequestResourceLimit: per family None or Some(subset of atoms) (so all 27 combinations of None / Some(empty) / Some(non-empty)) x forms {serde JSON; JSON with the legacy \"none\" for unlimited families; JSON with the v4/v6 aliases and unlimited families absent; the req_resource_set_* attributes of an RFC 6492 issue request written and parsed as XML; serde of the whole IssuanceRequest}; the value read back must be ==, field by field literally the model's representation, print the same, and apply_to must give the model's answer on EVERY ResourceSet of the product domain; non-trivial = limits that name at least one family with the empty set");
+    let (na, n4, n6) = rs3.bits();
+    let (oa, o4, o6) = ((1u32 << na) + 1, (1u32 << n4) + 1, (1u32 << n6) + 1); // option 0 = None, 1+m = Some(m)
+    // real canonical values per family, taken from the closure's states
+    let va: Vec<AsBlocks> = (0..1u32 << na).map(|m| have[rs3.pack((m, 0, 0))].as_ref().unwrap().asn().clone()).collect();
+    let v4: Vec<Ipv4Blocks> = (0..1u32 << n4).map(|m| have[rs3.pack((0, m, 0))].as_ref().unwrap().ipv4().clone()).collect();
+    let v6: Vec<Ipv6Blocks> = (0..1u32 << n6).map(|m| have[rs3.pack((0, 0, m))].as_ref().unwrap().ipv6().clone()).collect();
+    let csr = match std::fs::read(format!("{}/test-data/ca/drl-csr.der", rpki_verif::engine::report::repo_dir())).map_err(|e| e.to_string())
+        .and_then(|b| rpki::ca::csr::RpkiCaCsr::decode(b.as_slice()).map_err(|e| e.to_string())) {
+        Ok(c) => Some(c), Err(e) => { ctx.machinery_error(format!("CSR fixture test-data/ca/drl-csr.der: {e}")); None }
+    };
+    let txt = |d: &Dom, m: u32| d.runs(m).into_iter().map(|(a, b)| d.block_txt(a, b, true)).collect::<Vec<_>>().join(", ");
+    let total = (oa * o4 * o6) as u64;
+    par_chunks(total, 8, |lo, hi| {
+        let mut oc: BTreeMap<&'static str, u64> = BTreeMap::new();
+        let (mut evals, mut nontriv) = (0u64, 0u64);
+        for n in lo..hi {
+            let n = n as u32;
+            let opt = (n % oa, (n / oa) % o4, n / oa / o4);
+            let sel = |o: u32| if o == 0 { None } else { Some(o - 1) };
+            let (ma, m4, m6) = (sel(opt.0), sel(opt.1), sel(opt.2));
+            let mut l = RequestResourceLimit::new();
+            if let Some(m) = ma { l.with_asn(va[m as usize].clone()) }
+            if let Some(m) = m4 { l.with_ipv4(v4[m as usize].clone()) }
+            if let Some(m) = m6 { l.with_ipv6(v6[m as usize].clone()) }
+            if ma == Some(0) || m4 == Some(0) || m6 == Some(0) { nontriv += 1 }
+            let show = |o: Option<u32>, d: &Dom| match o { None => "unlimited".to_string(), Some(m) => d.show_mask(m) };
+            let wit = |form: &str| format!("limit={{asn={} v4={} v6={}}} form={form}", show(ma, rs3.a), show(m4, rs3.v4), show(m6, rs3.v6));
+            let field = |o: Option<u32>, d: &Dom| -> serde_json::Value { match o { None => json!("none"), Some(m) => json!(txt(d, m)) } };
+            for (f, fname) in LIMIT_FORMS.iter().enumerate() {
+                if f >= 3 && csr.is_none() { continue }
+                evals += 1;
+                let back: Result<Result<RequestResourceLimit, String>, String> = guard(|| match f {
+                    0 => { let js = serde_json::to_string(&l).map_err(|e| e.to_string())?; serde_json::from_str(&js).map_err(|e| format!("json {js} does not parse back: {e}")) }
+                    1 => { let js = json!({"asn": field(ma, rs3.a), "ipv4": field(m4, rs3.v4), "ipv6": field(m6, rs3.v6)}); serde_json::from_value(js.clone()).map_err(|e| format!("json {js} is refused: {e}")) }
+                    2 => {
+                        let mut o = serde_json::Map::new();
+                        if let Some(m) = ma { o.insert("asn".into(), json!(txt(rs3.a, m))); }
+                        if let Some(m) = m4 { o.insert("v4".into(), json!(txt(rs3.v4, m))); }
+                        if let Some(m) = m6 { o.insert("v6".into(), json!(txt(rs3.v6, m))); }
+                        let js = serde_json::Value::Object(o).to_string();
+                        serde_json::from_str(&js).map_err(|e| format!("json {js} is refused: {e}"))
+                    }
+                    3 => {
+                        let req = prov::IssuanceRequest::new(prov::ResourceClassName::from("rc0"), l.clone(), csr.clone().unwrap());
+                        let msg = prov::Message::issue(FromStr::from_str("child").unwrap(), FromStr::from_str("parent").unwrap(), req);
+                        let xml = msg.to_xml_bytes();
+                        match prov::Message::decode(xml.as_ref()).map_err(|e| format!("the written request does not parse back: {e}"))?.into_payload() {
+                            prov::Payload::Issue(r) => Ok(r.limit().clone()), _ => Err("the written request parses back as another payload".to_string()) }
+                    }
+                    _ => {
+                        let req = prov::IssuanceRequest::new(prov::ResourceClassName::from("rc0"), l.clone(), csr.clone().unwrap());
+                        let js = serde_json::to_value(&req).map_err(|e| e.to_string())?;
+                        let r: prov::IssuanceRequest = serde_json::from_value(js).map_err(|e| format!("the serialized request does not parse back: {e}"))?;
+                        Ok(r.limit().clone())
+                    }
+                });
+                let got = match back {
+                    Err(p) => { ctx.fail(&format!("C03.limit.{fname}.panic"), wit(fname), p); continue }
+                    Ok(Err(e)) => { ctx.fail(&format!("C03.limit.{fname}.accept"), wit(fname), e); continue }
+                    Ok(Ok(g)) => g,
+                };
+                // equality, literal fields, printing
+                let fa = match (got.asn(), ma) { (None, None) => true, (Some(x), Some(m)) => same(&Val::As(x.clone()), &rs3.a.canon[m as usize]), _ => false };
+                let f4 = match (got.ipv4(), m4) { (None, None) => true, (Some(x), Some(m)) => same(&Val::Ip((**x).clone()), &rs3.v4.canon[m as usize]), _ => false };
+                let f6 = match (got.ipv6(), m6) { (None, None) => true, (Some(x), Some(m)) => same(&Val::Ip((**x).clone()), &rs3.v6.canon[m as usize]), _ => false };
+                let same_value = got == l && fa && f4 && f6 && got.is_empty() == (ma.is_none() && m4.is_none() && m6.is_none()) && got.to_string() == l.to_string();
+                if same_value { *oc.entry("same-value-after-trip").or_insert(0) += 1 }
+                else { *oc.entry("different-value-after-trip").or_insert(0) += 1;
+                    ctx.fail(&format!("C03.limit.{fname}.value"), wit(fname), format!("the limit reads back as \"{got}\" (==: {}), the original prints as \"{l}\"", got == l)); }
+                // behaviour: apply_to on every set of the domain, against the model
+                let mut refused = 0u64; let mut granted = 0u64; let mut bad: Option<String> = None;
+                for (i, set) in have.iter().enumerate() {
+                    let set = set.as_ref().unwrap(); let t = rs3.unpack(i);
+                    let pick = |lim: Option<u32>, x: u32| match lim { None => Some(x), Some(y) => if y & !x == 0 { Some(y) } else { None } };
+                    let want = match (pick(ma, t.0), pick(m4, t.1), pick(m6, t.2)) { (Some(x), Some(y), Some(z)) => Some((x, y, z)), _ => None };
+                    let r = got.apply_to(set).ok();
+                    let ok = match (&r, want) { (None, None) => { refused += 1; true } (Some(v), Some(w)) => { granted += 1; rs3.diff(v, w).is_none() } _ => false };
+                    if !ok && bad.is_none() { bad = Some(format!("applied to {}: {}, expected {}", rs3.show(t), match &r { None => "refused".to_string(), Some(v) => format!("granted {v}") }, match want { None => "refusal".to_string(), Some(w) => rs3.show(w) })) }
+                }
+                evals += have.len() as u64;
+                *oc.entry("apply_to:refused").or_insert(0) += refused; *oc.entry("apply_to:granted").or_insert(0) += granted;
+                if let Some(d) = bad { ctx.fail(&format!("C03.limit.{fname}.apply_to"), wit(fname), d) }
+            }
+        }
+        sp.evals(evals); sp.nontrivial(nontriv); sp.merge_outcomes(&oc);
+    });
+    sp.set("limits", json!(total)); sp.set("forms", json!(LIMIT_FORMS)); sp.set("sets_applied_to", json!(have.len()));
+    sp.sample_str(|| { let mut l = RequestResourceLimit::new(); l.with_asn(va[0].clone()); l.with_ipv4(v4[1].clone()); format!("limit \"{l}\" serializes as {}", serde_json::to_string(&l).unwrap_or_default()) });
+    sp.done(true, &format!("all {} limits x {} forms x apply_to on all {} sets", total, LIMIT_FORMS.len(), have.len()));
 }
 
 //------------ main ---------------------------------------------------------------------------------
@@ -1312,6 +1514,7 @@ fn main() {
         let seeds = construct(&ctx, dom, n);
         let res = closure(&ctx, dom, seeds);
         queries(&ctx, dom, &res.have);
+        choice_forms(&ctx, dom, &res.have);
         if dom.kind.is_ip() { ber_spellings(&ctx, dom) }
     }
     bit_strings(&ctx);
